@@ -84,6 +84,12 @@ func (o op) String() string {
 		return fmt.Sprintf("%s(s%d,%v)", o.K, o.Shard, o.On)
 	case "gc":
 		return fmt.Sprintf("gc(s%d)", o.Shard)
+	case "detach":
+		return fmt.Sprintf("detach(s%d)", o.Shard)
+	case "rdetach":
+		return fmt.Sprintf("detach(HRW shard #%d of o%d)", o.Rank, o.ID)
+	case "reattach":
+		return "reattach(oldest detached shard)"
 	case "loseblob":
 		return fmt.Sprintf("loseblob(o%d on its HRW shard #%d)", o.ID, o.Rank)
 	case "rmode":
@@ -145,7 +151,7 @@ func gen(t *rapid.T) kase {
 	}
 	n := k.N0
 	nops := rapid.IntRange(4, 24).Draw(t, "nops")
-	kinds := []string{"put", "put", "put", "put", "delete", "drop", "tomb", "mode", "mode", "mode", "failput", "failread", "failread", "failexists", "addshard", "gc", "loseblob"}
+	kinds := []string{"put", "put", "put", "put", "delete", "drop", "tomb", "mode", "mode", "mode", "failput", "failread", "failread", "failexists", "addshard", "gc", "loseblob", "detach", "reattach", "reattach"}
 	var put []int
 	for len(k.Ops) < nops {
 		o := op{K: rapid.SampledFrom(kinds).Draw(t, "op")}
@@ -172,7 +178,7 @@ func gen(t *rapid.T) kase {
 		case "failput", "failread", "failexists":
 			o.Shard = rapid.IntRange(0, n-1).Draw(t, "shard")
 			o.On = rapid.IntRange(0, 2).Draw(t, "on") != 0
-		case "gc":
+		case "gc", "detach":
 			o.Shard = rapid.IntRange(0, n-1).Draw(t, "shard")
 		case "loseblob":
 			o.ID = pickPut("lose")
@@ -184,6 +190,32 @@ func gen(t *rapid.T) kase {
 			n++
 		}
 		k.Ops = append(k.Ops, o)
+	}
+	// Some histories get the "disk taken out and put back" story merged in: an
+	// object is stored, its first HRW shard is detached from the running engine,
+	// life goes on, the shard (still holding the object) is attached again.
+	merge := func(story []op, lbl string) {
+		pos := make([]int, len(story))
+		for i := range pos {
+			pos[i] = rapid.IntRange(0, len(k.Ops)).Draw(t, lbl)
+		}
+		sort.Ints(pos)
+		var merged []op
+		si := 0
+		for i := 0; i <= len(k.Ops); i++ {
+			for si < len(story) && pos[si] == i {
+				merged = append(merged, story[si])
+				si++
+			}
+			if i < len(k.Ops) {
+				merged = append(merged, k.Ops[i])
+			}
+		}
+		k.Ops = merged
+	}
+	if rapid.IntRange(0, 9).Draw(t, "reattach-story") < 3 {
+		id := rapid.SampledFrom(dataIDs).Draw(t, "rstory-obj")
+		merge([]op{{K: "put", ID: id}, {K: "rdetach", ID: id, Rank: 0}, {K: "put", ID: rapid.SampledFrom(dataIDs).Draw(t, "rstory-obj2")}, {K: "reattach"}}, "rstory-pos")
 	}
 	// Some histories get the "binary lost, re-uploaded elsewhere" story merged in
 	// (order preserving): the object is stored on its first HRW shard, the blob
@@ -237,6 +269,8 @@ type state struct {
 	// lost[id]: the blob of id was removed under some shard that keeps its
 	// metadata (then Put may answer nil "exists" although no blob is left)
 	lost map[int]bool
+	// detachedQ: detached slots in detach order (re-attached first in, first out)
+	detachedQ []int
 	// marked[id]: gone because of a Delete(default) mark (not a tombstone, not a drop)
 	labels map[string]bool
 	trace  []string
@@ -247,8 +281,22 @@ type state struct {
 
 func (s *state) addr(i int) oid.Address { return uni.Addr(cnr, i) }
 
+// attached returns the slots currently attached to the engine.
+func (s *state) attached() []int {
+	var r []int
+	for k, sh := range s.e.Sh {
+		if !sh.Detached {
+			r = append(r, k)
+		}
+	}
+	return r
+}
+
 func (s *state) healthy() bool {
 	for k, sh := range s.e.Sh {
+		if sh.Detached {
+			continue
+		}
 		if s.e.Mode(k) != mode.ReadWrite || sh.FailPut || sh.FailRead || sh.FailExists {
 			return false
 		}
@@ -268,6 +316,10 @@ func (s *state) allHoldersIndexed(id int) bool {
 func (s *state) modesStr() string {
 	var p []string
 	for k, sh := range s.e.Sh {
+		if sh.Detached {
+			p = append(p, fmt.Sprintf("s%d=detached", k))
+			continue
+		}
 		m := engx.ModeName(s.e.Mode(k))
 		if sh.FailPut {
 			m += "+failput"
@@ -297,6 +349,13 @@ func short(err error) string {
 func (s *state) exec(t *rapid.T, i int, o op) {
 	ctx := context.Background()
 	step := fmt.Sprintf("op %d %s", i, o)
+	switch o.K {
+	case "mode", "failput", "failread", "failexists", "gc":
+		if s.e.Sh[o.Shard].Detached {
+			s.trace = append(s.trace, step+" -> skipped, shard detached")
+			return
+		}
+	}
 	switch o.K {
 	case "put":
 		a := s.addr(o.ID)
@@ -356,12 +415,25 @@ func (s *state) exec(t *rapid.T, i int, o op) {
 		case "drop":
 			err = s.e.E.Drop(ctx, s.addr(id))
 		case "tomb":
+			// remember which shards took the tombstone WITH their metabase
+			mb := make([]mode.Mode, len(s.e.Sh))
+			for k := range s.e.Sh {
+				if !s.e.Sh[k].Detached {
+					mb[k] = s.e.Mode(k)
+				}
+			}
+			s.e.TakeCalls()
 			err = s.e.E.Put(ctx, s.objs[o.ID], nil)
+			for _, c := range s.e.TakeCalls() {
+				if c.Method == "Put" && c.Addr == s.addr(o.ID) && c.Err == nil && s.e.Phys(c.Shard, c.Addr) {
+					s.indexed[c.Shard][o.ID] = !mb[c.Shard].NoMetabase()
+				}
+			}
 		}
 		s.attempted[id] = true
 		existsFault := false
 		for _, sh := range s.e.Sh {
-			existsFault = existsFault || sh.FailExists
+			existsFault = existsFault || (sh.FailExists && !sh.Detached)
 		}
 		if existsFault {
 			// (a shard whose existence check fails with an I/O error is skipped by
@@ -379,7 +451,10 @@ func (s *state) exec(t *rapid.T, i int, o op) {
 		// no shard holds the object any more
 		switch o.K {
 		case "tomb":
-			clean = clean && len(s.e.Holders(s.addr(o.ID))) == len(s.e.Sh)
+			for _, k := range s.attached() {
+				// (a tombstone written while the shard had no metabase is a bare blob)
+				clean = clean && s.e.Phys(k, s.addr(o.ID)) && s.indexed[k][o.ID]
+			}
 		case "drop":
 			clean = clean && len(s.e.Holders(s.addr(id))) == 0
 		}
@@ -439,6 +514,49 @@ func (s *state) exec(t *rapid.T, i int, o op) {
 		s.lost[o.ID] = true
 		s.labels["blob-lost-under-metadata"] = true
 		s.trace = append(s.trace, fmt.Sprintf("%s = s%d: blob file removed, metadata kept", step, sh))
+	case "detach", "rdetach":
+		k := o.Shard
+		if o.K == "rdetach" {
+			order := s.e.HRW(s.addr(o.ID).Object())
+			if o.Rank >= len(order) {
+				s.trace = append(s.trace, step+" -> skipped, no such shard")
+				break
+			}
+			k = order[o.Rank]
+		}
+		if s.e.Sh[k].Detached || len(s.attached()) < 2 {
+			s.trace = append(s.trace, step+" -> skipped")
+			break
+		}
+		s.e.Detach(k)
+		s.detachedQ = append(s.detachedQ, k)
+		s.labels["shard-detached-at-runtime"] = true
+		s.trace = append(s.trace, fmt.Sprintf("%s = s%d detached (removed from the engine and closed)", step, k))
+	case "reattach":
+		if len(s.detachedQ) == 0 {
+			s.trace = append(s.trace, step+" -> skipped, nothing detached")
+			break
+		}
+		k := s.detachedQ[0]
+		s.detachedQ = s.detachedQ[1:]
+		if err := s.e.Reattach(k); err != nil {
+			ev.Inconclusive("C20 re-attach: %v", err)
+		}
+		// removals acknowledged while the shard was away did not reach it: whatever
+		// it holds is "stored on an attached shard" again
+		held := 0
+		for _, id := range dataIDs {
+			if s.e.Phys(k, s.addr(id)) {
+				held++
+				delete(s.acked, id)
+				delete(s.gone, id)
+			}
+		}
+		s.labels["shard-added-after-first-op"] = true
+		if held > 0 {
+			s.labels["pre-populated-shard-attached"] = true
+		}
+		s.trace = append(s.trace, fmt.Sprintf("%s = s%d attached again (holds %d data objects)", step, k, held))
 	case "addshard":
 		n := len(s.e.Sh)
 		if _, err := s.e.AddShard(fmt.Sprintf("%s/s%d", s.e.Sh[0].Dir+"-more", n), engx.MkID(n, s.k.Hashes[n])); err != nil {
@@ -446,6 +564,7 @@ func (s *state) exec(t *rapid.T, i int, o op) {
 		}
 		s.indexed = append(s.indexed, map[int]bool{})
 		s.labels["addshard"] = true
+		s.labels["shard-added-after-first-op"] = true
 		s.trace = append(s.trace, step)
 	}
 	s.checkReads(t, step)
@@ -485,6 +604,9 @@ func (s *state) checkReads(t *rapid.T, step string) {
 		var readable, unindexedOnly bool
 		othersBad := false
 		for k, sh := range s.e.Sh {
+			if sh.Detached {
+				continue
+			}
 			isHolder := false
 			for _, h := range holders {
 				isHolder = isHolder || h == k
@@ -505,6 +627,9 @@ func (s *state) checkReads(t *rapid.T, step string) {
 		modesBefore := s.modesStr()
 		plain := func() bool {
 			for k, sh := range s.e.Sh {
+				if sh.Detached {
+					continue
+				}
 				if sh.FailRead || s.e.Mode(k).NoMetabase() {
 					return false
 				}
@@ -561,6 +686,9 @@ func (s *state) checkReads(t *rapid.T, step string) {
 					// OTHER shard runs without metabase, read through Get / GetBytes
 					otherNoMeta := false
 					for k := range s.e.Sh {
+						if s.e.Sh[k].Detached {
+							continue
+						}
 						isHolder := false
 						for _, h := range holders {
 							isHolder = isHolder || h == k
@@ -598,7 +726,7 @@ func (s *state) checkReads(t *rapid.T, step string) {
 		}
 	}
 	for k := range s.e.Sh {
-		if s.e.Mode(k) == mode.DegradedReadOnly && s.k.Threshold > 0 {
+		if !s.e.Sh[k].Detached && s.e.Mode(k) == mode.DegradedReadOnly && s.k.Threshold > 0 {
 			s.labels["some-shard-degraded-ro"] = true
 		}
 	}
